@@ -1,2 +1,97 @@
+//! C05 — Blind BBS issuance and presentation completeness (form A, deviation bound 0).
+#![allow(non_snake_case)]
 use crate::common::*;
-pub fn run(_env: &Env) {}
+use mccore::{par_for, subsets, O};
+use refbbs::Suite;
+use serde_json::json;
+
+struct Root { id: String, suite: Suite, key: Key, l: usize, m: usize, hn: String, header: Option<Vec<u8>>, ph: Option<Vec<u8>>, mode: &'static str }
+
+pub fn run(env: &Env) {
+    let seed = env.ctx.seed;
+    let max = if env.thorough() { 4 } else { 3 };
+    let hs = hdr_small(seed);
+    let mut roots = Vec::new();
+    for s in suites() {
+        for k in keys(s).into_iter().filter(|k| k.id == "k0" || env.thorough() && k.id == "k1") {
+            for l in 0..=max { for m in 0..=max {
+                for (hn, h) in [hs[0].clone(), hs[2].clone()] {
+                    let modes: Vec<&'static str> = if m == 0 { vec!["no-commitment(None)", "no-commitment(Some(empty))", "commit(None)", "commit(Some(empty list))"] } else { vec!["commit"] };
+                    for mode in modes {
+                        roots.push(Root { id: format!("{}/{}/L{}/M{}/h={}/{}", s.name(), k.id, l, m, hn, mode), suite: s, key: k.clone(), l, m, hn: hn.clone(), header: h.clone(), ph: h.clone(), mode });
+                    }
+                }
+            } }
+        }
+    }
+    env.ctx.set_rule("roots = suites x k0 (thorough + k1) x (L, M) in [0..=3]^2 (thorough [0..=4]^2) x header/ph in {none,16B} x commitment mode {no commitment as None, as Some(empty), commit(None), commit(Some([])), commit over M messages}; per root: commit -> blind_sign(serialized commitment) -> verify_blind_sign(committed messages, blinding factor) and signature bytes = reference; then ALL 2^L x 2^M disclosure pairs: blind_proof_gen -> blind_proof_verify(L) -> from_bytes(to_bytes) -> reference verifies -> implementation verifies a reference-made proof. State = (root, D, Dc). Non-trivial = blind proof produced with production randomness and verified by both verifiers.");
+    env.ctx.extra("deviation_bound_completed", json!(0));
+    par_for(&roots, |_, r| {
+        if !env.want(&r.id) || env.ctx.out_of_time() { return; }
+        let zk = z(r.suite);
+        let k = &r.key;
+        let msgs = distinct_msgs(seed, "c05m", r.l);
+        let cms = distinct_msgs(seed, "c05c", r.m);
+        let det0 = json!({"suite": r.suite.name(), "key": k.id, "L": r.l, "M": r.m, "header/ph": r.hn, "mode": r.mode});
+        let commits = r.mode.starts_with("commit");
+        let (cwp, blind): (Option<Vec<u8>>, Option<[u8; 32]>) = if commits {
+            let c = if r.mode == "commit(None)" { zk.commit(None) } else { zk.commit(Some(&cms)) };
+            if !expect(env, &r.id, "commit", &c, true, "commit", det0.clone()) { return; }
+            let (c, b) = c.ok().unwrap();
+            if c.len() != 112 + 32 * r.m { env.ctx.violation("C05:commit-length", &format!("commitment_with_proof has {} octets, expected {}", c.len(), 112 + 32 * r.m), env.case(&r.id, det0.clone())); }
+            if refbbs::deserialize_and_validate_commit(r.suite, &c).is_err() { env.ctx.violation("C05:reference-rejects-commitment", "reference CoreCommitVerify rejects the implementation's commitment", env.case(&r.id, json!({"base": det0, "commitment": hex::encode(&c)}))); }
+            (Some(c), Some(b))
+        } else if r.mode == "no-commitment(Some(empty))" { (Some(vec![]), None) } else { (None, None) };
+        let sig = zk.blind_sign(&k.sk, &k.pk, cwp.as_deref(), oh(&r.header), if r.l == 0 && r.mode.contains("None") { None } else { Some(&msgs) });
+        if !expect(env, &r.id, "blind_sign", &sig, true, "blind_sign", det0.clone()) { return; }
+        let sig = sig.ok().unwrap();
+        let pk96: [u8; 96] = k.pk.clone().try_into().unwrap();
+        let sk = refbbs::octets_to_scalar_strict(&k.sk).unwrap();
+        match refbbs::blind_sign(r.suite, &sk, &pk96, cwp.as_deref().unwrap_or(&[]), hb(&r.header), &msgs) {
+            Ok(rs) if rs.to_vec() == sig => env.ctx.class("blind-sig-bytes=reference"),
+            Ok(rs) => env.ctx.violation("C05:blind_sign:bytes-differ-from-reference", "blind signature bytes differ from the reference", env.case(&r.id, json!({"base": det0, "impl": hex::encode(&sig), "ref": hex::encode(rs)}))),
+            Err(e) => env.machinery(&format!("reference blind_sign failed at {}: {}", r.id, e)),
+        }
+        let cm_arg: Option<&[Vec<u8>]> = if !commits { None } else { Some(&cms) };
+        let v = zk.verify_blind_sign(&k.pk, &sig, oh(&r.header), Some(&msgs), cm_arg, blind.as_ref());
+        expect(env, &r.id, "verify_blind_sign", &v, true, "verify_blind_sign", det0.clone());
+        let bsc = blind.map(|b| refbbs::octets_to_scalar_strict(&b).unwrap()).unwrap_or(bls12_381_plus::Scalar::ZERO);
+        if let Err(e) = refbbs::verify_blind_sign(r.suite, &k.pk, &sig, hb(&r.header), &msgs, &cms, &bsc) {
+            env.ctx.violation("C05:reference-rejects-blind-signature", &e, env.case(&r.id, det0.clone()));
+        }
+        let rt = zk.dec_blind_sig(&sig);
+        env.ctx.step();
+        if rt.clone().ok().as_deref() != Some(&sig[..]) { env.ctx.violation("C05:roundtrip:blind-signature", &rt.describe(), env.case(&r.id, det0.clone())); }
+        for d in subsets(r.l) { for dc in subsets(r.m) {
+            env.ctx.state(&[r.id.as_bytes(), format!("{:?}{:?}", d, dc).as_bytes()]);
+            let det = json!({"base": det0, "disclosed": d, "disclosed_committed": dc});
+            let u = r.l + r.m + 1 - d.len() - dc.len();
+            let p = zk.blind_proof_gen(&k.pk, &sig, oh(&r.header), oh(&r.ph), Some(&msgs), cm_arg, Some(&d), if commits { Some(&dc) } else { None }, blind.as_ref());
+            if !expect(env, &r.id, &format!("blind_proof_gen D={:?} Dc={:?}", d, dc), &p, true, "blind_proof_gen", det.clone()) { env.ctx.trace(); continue; }
+            let p = p.ok().unwrap();
+            if p.len() != 272 + 32 * u { env.ctx.violation("C05:length-law", &format!("blind proof length {} != 272+32*{}", p.len(), u), env.case(&r.id, det.clone())); }
+            let dm: Vec<Vec<u8>> = d.iter().map(|&i| msgs[i].clone()).collect();
+            let dcm: Vec<Vec<u8>> = dc.iter().map(|&i| cms[i].clone()).collect();
+            let v = zk.blind_proof_verify(&k.pk, &p, oh(&r.header), oh(&r.ph), Some(r.l), Some(&dm), Some(&dcm), Some(&d), Some(&dc));
+            expect(env, &r.id, &format!("blind_proof_verify D={:?} Dc={:?}", d, dc), &v, true, "blind_proof_verify", det.clone());
+            if r.l == 0 && d.is_empty() && dc.is_empty() {
+                let v = zk.blind_proof_verify(&k.pk, &p, oh(&r.header), oh(&r.ph), None, None, None, None, None);
+                expect(env, &r.id, "blind_proof_verify(all optional arguments None)", &v, true, "none-vs-empty:blind_proof_verify", det.clone());
+            }
+            let rt = zk.dec_proof(&p);
+            env.ctx.step();
+            if rt.clone().ok().as_deref() != Some(&p[..]) { env.ctx.violation("C05:roundtrip:blind-proof", &rt.describe(), env.case(&r.id, det.clone())); }
+            if let Err(e) = refbbs::blind_proof_verify(r.suite, &k.pk, &p, hb(&r.header), hb(&r.ph), r.l, &dm, &dcm, &d, &dc) {
+                env.ctx.violation("C05:reference-rejects-blind-proof", &e, env.case(&r.id, json!({"base": det0, "disclosed": d, "disclosed_committed": dc, "proof": hex::encode(&p)})));
+            }
+            let rnd: Vec<_> = (0..5 + u).map(|i| refbbs::random_scalar_from(&seed.to_be_bytes(), r.id.as_bytes(), i as u64 + 1000 * (d.len() + 10 * dc.len()) as u64)).collect();
+            match refbbs::blind_proof_gen(r.suite, &pk96, &sig, hb(&r.header), hb(&r.ph), &msgs, &cms, &d, &dc, &bsc, &rnd) {
+                Ok(rp) => { let v = zk.blind_proof_verify(&k.pk, &rp, oh(&r.header), oh(&r.ph), Some(r.l), Some(&dm), Some(&dcm), Some(&d), Some(&dc)); expect(env, &r.id, "blind_proof_verify(reference proof)", &v, true, "verify-reference-blind-proof", det.clone()); }
+                Err(e) => env.machinery(&format!("reference blind_proof_gen failed at {}: {}", r.id, e)),
+            }
+            env.ctx.class(&format!("R={} Rc={}", d.len().min(2), dc.len().min(2)));
+            env.ctx.trace();
+            if r.l == 2 && r.m == 2 && d.len() == 1 && dc.len() == 1 { env.ctx.sample(json!({"root": r.id, "disclosed": d, "disclosed_committed": dc, "proof_len": p.len()})); }
+        } }
+    });
+}
